@@ -295,83 +295,95 @@ Proof.
   unfold lf_addr. destruct (Hg sf) as [-> ->]. reflexivity.
 Qed.
 
-Lemma srv_ev_clean_entity s en srv : srv_ev (clean_entity_caches s en) srv = srv_ev s srv.
+Lemma srv_ev_clean_entity s d a srv : srv_ev (clean_entity_caches s d a) srv = srv_ev s srv.
 Proof.
-  unfold clean_entity_caches. destruct (re_dev en); [|reflexivity].
+  unfold clean_entity_caches. destruct d; [|reflexivity].
   eapply srv_ev_keymap; [reflexivity | reflexivity | intros x; split; reflexivity].
 Qed.
 
 Lemma hit_nil p l : filter (hitE p []) l = [].
 Proof. apply filter_none. intros x _. unfold hitE. simpl. apply andb_false_r. Qed.
 
-Lemma remove_entities_events l : forall s p s' evs err,
-  RegOK s -> remove_entities s p l = (s', evs, err) ->
+Definition teardown_perm (s : st) (p : N) (evs : list obs) (L LB : list entry) : Prop :=
   Permutation (map norm_event (filter is_reg_event evs))
-     (map (ev_of s EvSub) (filter (hitE p (gone_of evs)) (subs s)) ++
-      map (ev_of s EvBind) (filter (hitE p (gone_of evs)) (binds s))) /\
+     (map (ev_of s EvSub) (filter (hitE p (gone_of evs)) L) ++
+      map (ev_of s EvBind) (filter (hitE p (gone_of evs)) LB)).
+
+Lemma teardown_perm_nil s p L LB : teardown_perm s p [] L LB.
+Proof. unfold teardown_perm. simpl. rewrite !hit_nil. constructor. Qed.
+
+(* NodeManagement.removeRemoteEntity *)
+Lemma remove_entity_events s p a s' evs :
+  RegOK s -> remove_entity s p a = (s', evs) ->
+  teardown_perm s p evs (subs s) (binds s) /\
   (forall srv, srv_ev s' srv = srv_ev s srv) /\
   Forall (fun o => is_event o = true) evs.
 Proof.
-  induction l as [|de r IH]; intros s p s' evs err Hok H.
-  - simpl in H. inversion H; subst. simpl. rewrite !hit_nil. repeat split; constructor.
-  - rewrite remove_entities_cons in H. destruct (find_peer s p) as [pe|] eqn:Ep.
-    2:{ inversion H; subst. simpl. rewrite !hit_nil. repeat split; constructor. }
-    destruct (check_entity pe de); cbn [negb] in H.
-    2:{ inversion H; subst. simpl. rewrite !hit_nil. repeat split; constructor. }
-    destruct (find_rent pe (de_addr de)) as [en|] eqn:Een; [|exact (IH _ _ _ _ _ Hok H)].
-    cbv zeta in H.
-    set (pe1 := {| p_ski := p_ski pe; p_addr := p_addr pe;
-                   p_ents := filter (fun x => negb (eqb_eaddr (re_addr x) (de_addr de))) (p_ents pe) |}) in *.
-    pose proof (remove_for_entity_spec (set_peer s pe1) pe1 en) as Hr.
-    destruct (remove_for_entity (set_peer s pe1) pe1 en) as [s2 evs1] eqn:Hrfe.
-    destruct Hr as [[Hs2 Hn2 Hb2 Hnb2] [Hp2 _]].
-    destruct (clean_entity_caches_frame s2 en) as [[Hs3 Hn3 Hb3 Hnb3] Hp3].
-    destruct (remove_entities (clean_entity_caches s2 en) p r) as [[s4 evs2] err2] eqn:Er.
-    injection H as H1 H2 H3. subst s' evs err.
-    pose proof (find_peer_ski _ _ _ Ep) as Hski.
-    pose proof (find_rent_addr _ _ _ Een) as Haddr.
-    assert (Hp3' : peers (clean_entity_caches s2 en) = peers (set_peer s pe1)) by (rewrite Hp3, Hp2; reflexivity).
-    assert (Hok3 : RegOK (clean_entity_caches s2 en)).
-    { destruct Hok as [HokS HokB]. split; intros e He.
-      - rewrite Hs3, Hs2 in He. simpl in He. unfold drop in He. apply filter_In in He. destruct He as [He Hm].
-        simpl p_ski in Hm. rewrite Hski, Haddr in Hm.
-        exact (owner_survives s p pe (de_addr de) en e Ep Een (HokS e He) Hm _ Hp3').
-      - rewrite Hb3, Hb2 in He. simpl in He. unfold drop in He. apply filter_In in He. destruct He as [He Hm].
-        simpl p_ski in Hm. rewrite Hski, Haddr in Hm.
-        exact (owner_survives s p pe (de_addr de) en e Ep Een (HokB e He) Hm _ Hp3'). }
-    destruct (IH _ _ _ _ _ Hok3 Er) as [Hperm2 [Hsrv2 Hall2]].
-    (* the events of this round *)
-    assert (Hevs1 : evs1 = map (ev_removed EvSub (set_peer s pe1) pe1 en) (filter (entity_match pe1 en) (subs s)) ++
-                           map (ev_removed EvBind (set_peer s pe1) pe1 en) (filter (entity_match pe1 en) (binds s))).
-    { unfold remove_for_entity in Hrfe. inversion Hrfe. reflexivity. }
-    assert (Hsrv3 : forall srv, srv_ev (clean_entity_caches s2 en) srv = srv_ev s srv).
-    { intros srv. rewrite srv_ev_clean_entity. unfold remove_for_entity in Hrfe. inversion Hrfe. reflexivity. }
-    assert (Hgone : gone_of (ev_entity ChRemove pe (re_addr en) :: evs1 ++ evs2) = [re_addr en] ++ gone_of evs2).
-    { change (gone_of (ev_entity ChRemove pe (re_addr en) :: evs1 ++ evs2)) with (re_addr en :: gone_of (evs1 ++ evs2)).
-      rewrite gone_of_app. replace (gone_of evs1) with (@nil eaddr); [reflexivity|].
-      rewrite Hevs1, gone_of_app.
-      destruct (evs_removed_quiet EvSub (set_peer s pe1) pe1 en (filter (entity_match pe1 en) (subs s))) as [_ [_ G1]]; [discriminate|].
-      destruct (evs_removed_quiet EvBind (set_peer s pe1) pe1 en (filter (entity_match pe1 en) (binds s))) as [_ [_ G2]]; [discriminate|].
-      rewrite G1, G2. reflexivity. }
+  intros Hok H. rewrite remove_entity_unfold in H.
+  destruct (find_peer s p) as [pe|] eqn:Ep.
+  2:{ inversion H; subst. split; [apply teardown_perm_nil | split; [reflexivity | constructor]]. }
+  destruct (find_rent pe a) as [en|] eqn:Een.
+  2:{ inversion H; subst. split; [apply teardown_perm_nil | split; [reflexivity | constructor]]. }
+  cbv zeta in H.
+  set (pe1 := {| p_ski := p_ski pe; p_addr := p_addr pe;
+                 p_ents := filter (fun x => negb (eqb_eaddr (re_addr x) a)) (p_ents pe) |}) in *.
+  destruct (remove_for_entity (set_peer s pe1) pe1 en) as [s2 evs1] eqn:Hrfe.
+  injection H as H1 H2. subst s' evs.
+  pose proof (find_peer_ski _ _ _ Ep) as Hski.
+  pose proof (find_rent_addr _ _ _ Een) as Haddr.
+  assert (Hevs1 : evs1 = map (ev_removed EvSub (set_peer s pe1) pe1 en) (filter (entity_match pe1 en) (subs s)) ++
+                         map (ev_removed EvBind (set_peer s pe1) pe1 en) (filter (entity_match pe1 en) (binds s))).
+  { unfold remove_for_entity in Hrfe. inversion Hrfe. reflexivity. }
+  assert (Hgone : gone_of (ev_entity ChRemove pe (re_addr en) :: evs1) = [a]).
+  { change (gone_of (ev_entity ChRemove pe (re_addr en) :: evs1)) with (re_addr en :: gone_of evs1).
+    replace (gone_of evs1) with (@nil eaddr); [rewrite Haddr; reflexivity|].
+    rewrite Hevs1, gone_of_app.
+    destruct (evs_removed_quiet EvSub (set_peer s pe1) pe1 en (filter (entity_match pe1 en) (subs s))) as [_ [_ G1]]; [discriminate|].
+    destruct (evs_removed_quiet EvBind (set_peer s pe1) pe1 en (filter (entity_match pe1 en) (binds s))) as [_ [_ G2]]; [discriminate|].
+    rewrite G1, G2. reflexivity. }
+  split; [|split].
+  - unfold teardown_perm. rewrite Hgone.
+    change (filter is_reg_event (ev_entity ChRemove pe (re_addr en) :: evs1)) with (filter is_reg_event evs1).
+    rewrite Hevs1, filter_app, !removed_reg_events by auto. rewrite map_app, !map_norm_removed by auto.
+    rewrite !(filter_ext' (entity_match pe1 en) (hitE p [a]))
+      by (intros x; rewrite entity_match_hitE; simpl p_ski; rewrite Hski, Haddr; reflexivity).
+    apply Permutation_refl.
+  - intros srv. rewrite srv_ev_clean_entity. unfold remove_for_entity in Hrfe. inversion Hrfe. reflexivity.
+  - constructor; [reflexivity|]. rewrite Hevs1. apply Forall_app. split; apply removed_all_events.
+Qed.
+
+Lemma teardown_perm_app s s1 p evs1 evs2 L LB :
+  teardown_perm s p evs1 L LB ->
+  (forall srv, srv_ev s1 srv = srv_ev s srv) ->
+  teardown_perm s1 p evs2 (drop p (gone_of evs1) L) (drop p (gone_of evs1) LB) ->
+  teardown_perm s p (evs1 ++ evs2) L LB.
+Proof.
+  unfold teardown_perm. intros H1 Hsrv H2. rewrite filter_app, map_app, gone_of_app.
+  apply compose_rounds; [exact H1|].
+  rewrite (map_ext (ev_of s1 EvSub) (ev_of s EvSub)) in H2 by (intros x; apply ev_of_ext; exact Hsrv).
+  rewrite (map_ext (ev_of s1 EvBind) (ev_of s EvBind)) in H2 by (intros x; apply ev_of_ext; exact Hsrv).
+  exact H2.
+Qed.
+
+Lemma remove_unlisted_events listed es : forall s p s' evs,
+  RegOK s -> remove_unlisted s p listed es = (s', evs) ->
+  teardown_perm s p evs (subs s) (binds s) /\
+  (forall srv, srv_ev s' srv = srv_ev s srv) /\
+  Forall (fun o => is_event o = true) evs.
+Proof.
+  induction es as [|a r IH]; intros s p s' evs Hok H.
+  - simpl in H. inversion H; subst. split; [apply teardown_perm_nil | split; [reflexivity | constructor]].
+  - simpl in H. destruct (existsb (eqb_eaddr a) listed || eqb_eaddr a [0%N]); [exact (IH _ _ _ _ Hok H)|].
+    destruct (remove_entity s p a) as [s1 evs1] eqn:E1.
+    destruct (remove_entity_spec _ _ _ _ _ Hok E1) as [Hok1 [[Hs1 _ Hb1 _] _]].
+    destruct (remove_entity_events _ _ _ _ _ Hok E1) as [Hp1 [Hsrv1 Hall1]].
+    destruct (remove_unlisted s1 p listed r) as [s2 evs2] eqn:E2.
+    destruct (IH _ _ _ _ Hok1 E2) as [Hp2 [Hsrv2 Hall2]].
+    injection H as H1 H2. subst s' evs.
     split; [|split].
-    + rewrite Hgone.
-      change (filter is_reg_event (ev_entity ChRemove pe (re_addr en) :: evs1 ++ evs2)) with (filter is_reg_event (evs1 ++ evs2)).
-      rewrite filter_app, map_app.
-      apply compose_rounds.
-      * rewrite Hevs1, filter_app, !removed_reg_events by (auto). rewrite map_app, !map_norm_removed by auto.
-        rewrite !(filter_ext' (entity_match pe1 en) (hitE p [re_addr en]))
-          by (intros x; rewrite entity_match_hitE; simpl p_ski; rewrite Hski; reflexivity).
-        apply Permutation_refl.
-      * rewrite Hs3, Hs2, Hb3, Hb2 in Hperm2. simpl subs in Hperm2. simpl binds in Hperm2. simpl p_ski in Hperm2.
-        rewrite Hski in Hperm2.
-        rewrite (map_ext (ev_of (clean_entity_caches s2 en) EvSub) (ev_of s EvSub)) in Hperm2
-          by (intros x; apply ev_of_ext; exact Hsrv3).
-        rewrite (map_ext (ev_of (clean_entity_caches s2 en) EvBind) (ev_of s EvBind)) in Hperm2
-          by (intros x; apply ev_of_ext; exact Hsrv3).
-        exact Hperm2.
-    + intros srv. rewrite Hsrv2. apply Hsrv3.
-    + constructor; [reflexivity|]. apply Forall_app. split; [|exact Hall2].
-      rewrite Hevs1. apply Forall_app. split; apply removed_all_events.
+    + apply (teardown_perm_app s s1); [exact Hp1 | exact Hsrv1|]. rewrite <- Hs1, <- Hb1. exact Hp2.
+    + intros srv. rewrite Hsrv2. apply Hsrv1.
+    + apply Forall_app. split; assumption.
 Qed.
 
 Lemma added_all_events pe l : Forall (fun o => is_event o = true) (map (ev_entity ChAdd pe) l).
@@ -380,50 +392,119 @@ Proof. apply Forall_forall. intros o Ho. apply in_map_iff in Ho. destruct Ho as 
 Lemma added_no_reg_events pe l : filter is_reg_event (map (ev_entity ChAdd pe) l) = [].
 Proof. induction l as [|x l IH]; simpl; [reflexivity | exact IH]. Qed.
 
+Lemma teardown_perm_added s p pe created evs L LB :
+  teardown_perm s p evs L LB -> teardown_perm s p (map (ev_entity ChAdd pe) created ++ evs) L LB.
+Proof. unfold teardown_perm. rewrite filter_app, added_no_reg_events, gone_of_app, gone_of_added. auto. Qed.
+
 Lemma notify_entries_events l : forall s p m s' evs err,
   RegOK s -> notify_entries s p m l = (s', evs, err) ->
-  Permutation (map norm_event (filter is_reg_event evs))
-     (map (ev_of s EvSub) (filter (hitE p (gone_of evs)) (subs s)) ++
-      map (ev_of s EvBind) (filter (hitE p (gone_of evs)) (binds s))) /\
+  teardown_perm s p evs (subs s) (binds s) /\
   (forall srv, srv_ev s' srv = srv_ev s srv) /\
   Forall (fun o => is_event o = true) evs.
 Proof.
   induction l as [|de r IH]; intros s p m s' evs err Hok H.
-  - simpl in H. inversion H; subst. simpl. rewrite !hit_nil. repeat split; constructor.
+  - simpl in H. inversion H; subst. split; [apply teardown_perm_nil | split; [reflexivity | constructor]].
   - rewrite notify_entries_cons in H.
-    destruct (de_state de) as [[|]|].
-    + (* added *)
-      destruct (find_peer s p) as [pe|] eqn:Ep.
-      2:{ inversion H; subst. simpl. rewrite !hit_nil. repeat split; constructor. }
-      destruct (all_checked pe (dm_ents m)); cbn [negb] in H.
-      * pose proof (RegOK_set_peer_add s p pe m (dm_ents m) Ep Hok) as Hok1.
-        destruct (add_entities pe m (dm_ents m)) as [pe1 created]. simpl fst in Hok1. cbv zeta in H.
-        destruct (notify_entries (set_peer s pe1) p m r) as [[s2 evs2] err2] eqn:Er.
-        injection H as H1 H2 H3. subst s' evs err.
-        destruct (IH _ _ _ _ _ _ Hok1 Er) as [Hperm2 [Hsrv2 Hall2]].
-        split; [|split].
-        -- rewrite filter_app, added_no_reg_events, gone_of_app, gone_of_added. exact Hperm2.
-        -- intros srv. rewrite Hsrv2. apply srv_ev_ext; reflexivity.
-        -- apply Forall_app. split; [apply added_all_events | exact Hall2].
-      * cbv zeta in H.
-        match type of H with context [add_entities pe m ?ok] => destruct (add_entities pe m ok) as [pe1 cr] end.
-        inversion H; subst. simpl. rewrite !hit_nil. repeat split; try constructor.
-    + (* removed *)
-      destruct (remove_entities s p (dm_ents m)) as [[s1 evs1] err1] eqn:Er1.
-      destruct (remove_entities_spec _ _ _ _ _ _ Hok Er1) as [Hok1 [[Hs1 Hn1 Hb1 Hnb1] _]].
-      destruct (remove_entities_events _ _ _ _ _ _ Hok Er1) as [Hperm1 [Hsrv1 Hall1]].
-      destruct err1.
-      * inversion H; subst. repeat split; assumption.
-      * destruct (notify_entries s1 p m r) as [[s2 evs2] err2] eqn:Er.
-        injection H as H1 H2 H3. subst s' evs err.
-        destruct (IH _ _ _ _ _ _ Hok1 Er) as [Hperm2 [Hsrv2 Hall2]].
-        split; [|split].
-        -- rewrite filter_app, map_app, gone_of_app. apply compose_rounds; [exact Hperm1|].
-           rewrite Hs1, Hb1 in Hperm2.
-           rewrite (map_ext (ev_of s1 EvSub) (ev_of s EvSub)) in Hperm2 by (intros x; apply ev_of_ext; exact Hsrv1).
-           rewrite (map_ext (ev_of s1 EvBind) (ev_of s EvBind)) in Hperm2 by (intros x; apply ev_of_ext; exact Hsrv1).
-           exact Hperm2.
-        -- intros srv. rewrite Hsrv2. apply Hsrv1.
-        -- apply Forall_app. split; assumption.
-    + inversion H; subst. simpl. rewrite !hit_nil. repeat split; constructor.
+    destruct (de_state de) as [[|]|];
+      [| |inversion H; subst; split; [apply teardown_perm_nil | split; [reflexivity | constructor]]].
+    + destruct (find_peer s p) as [pe|] eqn:Ep.
+      2:{ inversion H; subst. split; [apply teardown_perm_nil | split; [reflexivity | constructor]]. }
+      destruct (check_entity pe de); cbn [negb] in H.
+      2:{ inversion H; subst. split; [apply teardown_perm_nil | split; [reflexivity | constructor]]. }
+      pose proof (RegOK_set_peer_add s p pe m [de] Ep Hok) as Hok1.
+      destruct (add_entities pe m [de]) as [pe1 created]. simpl fst in Hok1.
+      destruct (notify_entries (set_peer s pe1) p m r) as [[s2 evs2] err2] eqn:Er.
+      injection H as H1 H2 H3. subst s' evs err.
+      destruct (IH _ _ _ _ _ _ Hok1 Er) as [Hp2 [Hsrv2 Hall2]].
+      split; [|split].
+      * apply teardown_perm_added. unfold teardown_perm in *.
+        rewrite (map_ext (ev_of (set_peer s pe1) EvSub) (ev_of s EvSub)) in Hp2
+          by (intros x; apply ev_of_ext; intros srv; apply srv_ev_ext; reflexivity).
+        rewrite (map_ext (ev_of (set_peer s pe1) EvBind) (ev_of s EvBind)) in Hp2
+          by (intros x; apply ev_of_ext; intros srv; apply srv_ev_ext; reflexivity).
+        exact Hp2.
+      * intros srv. rewrite Hsrv2. apply srv_ev_ext; reflexivity.
+      * apply Forall_app. split; [apply added_all_events | exact Hall2].
+    + destruct (find_peer s p) as [pe|] eqn:Ep.
+      2:{ inversion H; subst. split; [apply teardown_perm_nil | split; [reflexivity | constructor]]. }
+      destruct (check_removed pe de); cbn [negb] in H.
+      2:{ inversion H; subst. split; [apply teardown_perm_nil | split; [reflexivity | constructor]]. }
+      destruct (remove_entity s p (de_addr de)) as [s1 evs1] eqn:E1.
+      destruct (remove_entity_spec _ _ _ _ _ Hok E1) as [Hok1 [[Hs1 _ Hb1 _] _]].
+      destruct (remove_entity_events _ _ _ _ _ Hok E1) as [Hp1 [Hsrv1 Hall1]].
+      destruct (notify_entries s1 p m r) as [[s2 evs2] err2] eqn:Er.
+      injection H as H1 H2 H3. subst s' evs err.
+      destruct (IH _ _ _ _ _ _ Hok1 Er) as [Hp2 [Hsrv2 Hall2]].
+      split; [|split].
+      * apply (teardown_perm_app s s1); [exact Hp1 | exact Hsrv1|]. rewrite <- Hs1, <- Hb1. exact Hp2.
+      * intros srv. rewrite Hsrv2. apply Hsrv1.
+      * apply Forall_app. split; assumption.
+Qed.
+
+(* ---------- a discovery reply ---------- *)
+Lemma srv_ev_upd s e f g srv :
+  (forall x, lf_ent (g x) = lf_ent x /\ lf_id (g x) = lf_id x) -> srv_ev (upd_lfeat s e f g) srv = srv_ev s srv.
+Proof.
+  intros Hg. eapply (srv_ev_keymap s _ (fun x => if eqb_eaddr (lf_ent x) e && N.eqb (lf_id x) f then g x else x));
+    [reflexivity | reflexivity|].
+  intros x. destruct (_ && _); [apply Hg | split; reflexivity].
+Qed.
+
+Lemma handle_device_added_srv s1 p pe pe1 l0 srv : srv_ev (handle_device_added s1 p pe pe1 l0) srv = srv_ev s1 srv.
+Proof.
+  unfold handle_device_added.
+  set (s1a := if reply_completes pe pe1 then _ else s1).
+  assert (H1a : srv_ev s1a srv = srv_ev s1 srv).
+  { unfold s1a. destruct (reply_completes pe pe1); [|reflexivity]. destruct l0; apply srv_ev_ext; reflexivity. }
+  assert (Hu : forall d0, srv_ev (upd_lfeat s1a [0%N] 0 (add_client_ref true (nm_addr (Some d0)))) srv = srv_ev s1 srv).
+  { intros d0. rewrite srv_ev_upd; [exact H1a | intros x; split; reflexivity]. }
+  destruct (match remote_feature pe (nm_addr None) with Some (_, rf) => rf_dev rf | None => None end) as [d0|].
+  - destruct (peer_by_addr s1a d0); [apply Hu | exact H1a].
+  - destruct (p_addr pe1) as [d1|]; [|exact H1a]. destruct (peer_by_addr s1a d1); [apply Hu | exact H1a].
+Qed.
+
+Lemma reply_events s p m : RegOK s ->
+  let out := snd (step s (DiscoveryReply p m)) in
+  teardown_perm s p out (completed s p m (subs s)) (completed s p m (binds s)) /\
+  Forall (fun o => is_event o = true) out.
+Proof.
+  intros Hok. unfold completed, model_completion. cbn [step]. unfold with_source.
+  destruct (find_peer s p) as [pe|] eqn:Ep; [|split; [apply teardown_perm_nil | constructor]].
+  destruct (remote_feature pe (nm_addr None)) as [[en rf]|] eqn:Esrc; [|split; [apply teardown_perm_nil | constructor]].
+  set (pe0 := {| p_ski := p_ski pe; p_addr := match dm_dev m with Some d => Some d | None => p_addr pe end; p_ents := p_ents pe |}).
+  pose proof (RegOK_set_peer_add' s p pe pe0 m (dm_ents m) Ep eq_refl eq_refl Hok) as Hok1.
+  pose proof (add_entities_ski pe0 m (dm_ents m)) as Hski.
+  pose proof (add_entities_addr pe0 m (dm_ents m)) as Haddr.
+  destruct (add_entities pe0 m (dm_ents m)) as [pe1 created]. simpl fst in Hok1, Hski, Haddr.
+  pose proof (find_peer_ski _ _ _ Ep) as Hp.
+  assert (Ep1 : find_peer (set_peer s pe1) p = Some pe1).
+  { rewrite find_peer_set_peer, Ep, Hski. simpl. rewrite Hp, N.eqb_refl. reflexivity. }
+  assert (Hski1 : p_ski pe1 = p) by (rewrite Hski; simpl; exact Hp).
+  destruct (handle_device_added_spec (set_peer s pe1) p pe pe1
+              (existsb (fun de => eqb_eaddr (de_addr de) [0%N]) (dm_ents m)) Ep1 Hski1 Hok1) as [Hok2 [Hs2 [Hb2 _]]].
+  pose proof (handle_device_added_srv (set_peer s pe1) p pe pe1 (existsb (fun de => eqb_eaddr (de_addr de) [0%N]) (dm_ents m))) as Hsrv2.
+  destruct (remove_unlisted _ p (map de_addr (dm_ents m)) (map re_addr (p_ents pe1))) as [s3 evs] eqn:Eu.
+  destruct (remove_unlisted_events _ _ _ _ _ _ Hok2 Eu) as [Hperm [_ Hall]]. cbn [snd].
+  assert (Hmap : forall l, reply_map p pe pe1 l =
+                           match (match rf_dev rf with None => reply_addr pe m | Some _ => None end) with
+                           | Some d => complete_nm_addr p (Some d) l
+                           | None => l
+                           end).
+  { intros l. unfold reply_map, reply_completes, reply_addr. rewrite Esrc, Haddr. simpl p_addr.
+    destruct (rf_dev rf); [reflexivity|]. destruct (match dm_dev m with Some d => Some d | None => p_addr pe end); reflexivity. }
+  split.
+  - change (OEvent EvDevice ChAdd p None None None :: map (ev_entity ChAdd pe1) created ++ evs)
+      with ([OEvent EvDevice ChAdd p None None None] ++ (map (ev_entity ChAdd pe1) created ++ evs)).
+    unfold teardown_perm. rewrite filter_app, gone_of_app. simpl filter at 1. simpl gone_of at 1. simpl app.
+    fold (teardown_perm s p (map (ev_entity ChAdd pe1) created ++ evs)
+            (match (match rf_dev rf with None => reply_addr pe m | Some _ => None end) with Some d => complete_nm_addr p (Some d) (subs s) | None => subs s end)
+            (match (match rf_dev rf with None => reply_addr pe m | Some _ => None end) with Some d => complete_nm_addr p (Some d) (binds s) | None => binds s end)).
+    apply teardown_perm_added. rewrite Hs2, Hb2, !Hmap in Hperm. simpl subs in Hperm. simpl binds in Hperm.
+    unfold teardown_perm in *.
+    rewrite (map_ext (ev_of _ EvSub) (ev_of s EvSub)) in Hperm
+      by (intros x; apply ev_of_ext; intros srv; rewrite Hsrv2; apply srv_ev_ext; reflexivity).
+    rewrite (map_ext (ev_of _ EvBind) (ev_of s EvBind)) in Hperm
+      by (intros x; apply ev_of_ext; intros srv; rewrite Hsrv2; apply srv_ev_ext; reflexivity).
+    exact Hperm.
+  - constructor; [reflexivity|]. apply Forall_app. split; [apply added_all_events | exact Hall].
 Qed.
